@@ -1,5 +1,6 @@
 """C11 — every page has exactly one owner; freed pages are reused, never lost (tree facade dumps + verified checker)."""
 from lib.runner import Spec, Stream, Case
+from props.c05 import canon as sql_canon
 from props import c10
 
 
@@ -195,27 +196,129 @@ def post(case, raw):
     return terms
 
 
+def gen_alloc(rng, tier):
+    """engine-shaped operation sequences on the pager's allocator: overflow / B+tree page allocation, chains of 1-5 links built
+    with next-link writes, release of B+tree pages and of whole chains front to back; plus the single-link release hazard"""
+    out = [Case("fl 4096,64 a a l:1:2 O:1 a a", "[FAlloc; FAlloc; FLink 1 2; FDeallocO 1; FAlloc; FAlloc]", "hazard", {"classes": [], "hazard": True})]
+    for k in range(120 if tier == "quick" else 3000):
+        rust, coq = [], []
+        total, free = 1, []
+        btree, chains, loose = [], [], []      # pages in use: B+tree pages, linked chains (lists), unlinked overflow pages
+
+        def alloc(kind):
+            nonlocal total
+            if free:
+                p = free.pop(0)
+            else:
+                p = total; total += 1
+            rust.append("b" if kind == "b" else "a"); coq.append("FAlloc")
+            return p
+
+        for _ in range(rng.choice([10, 30, 80])):
+            r = rng.random()
+            if r < 0.25:
+                btree.append(alloc("b"))
+            elif r < 0.5:
+                n = rng.choice([1, 1, 2, 3, 5])
+                ps = [alloc("a") for _ in range(n)]
+                if rng.random() < 0.3:
+                    rng.shuffle(ps)                 # chains need not be in page order
+                for x, y in zip(ps, ps[1:]):
+                    rust.append("l:%d:%d" % (x, y)); coq.append("FLink %d %d" % (x, y))
+                chains.append(ps)
+            elif r < 0.7 and btree:
+                p = btree.pop(rng.randrange(len(btree)))
+                rust.append("B:%d" % p); coq.append("FDeallocB %d" % p); free.append(p)
+            elif r < 0.95 and chains:
+                ps = chains.pop(rng.randrange(len(chains)))
+                rust.append("C:" + "+".join(map(str, ps))); coq.append("FDeallocChain [%s]" % "; ".join(map(str, ps))); free.extend(ps)
+        out.append(Case("fl %d,%d %s" % (rng.choice([4096, 8192]), rng.choice([8, 64]), " ".join(rust)), "[%s]" % "; ".join(coq), "alloc", {"classes": []}))
+    return out
+
+
+def oracle_alloc(case, il):
+    """independent of the model: a python queue - release appends, allocation pops the head before the file grows; after every
+    operation the list linked from the recorded head is that queue and head / tail / total are its ends and the page count"""
+    if case.meta.get("hazard"):
+        return None
+    ops = case.rust.split(" ")[2:]
+    toks = il.split(" ")
+    if len(ops) != len(toks):
+        return "%d answers for %d operations" % (len(toks), len(ops))
+    total, free, used = 1, [], set()
+    for k, (op, t) in enumerate(zip(ops, toks)):
+        res, _, st = t.partition("[")
+        f = op.split(":")
+        if f[0] in ("a", "b"):
+            if free:
+                p = free.pop(0)
+            else:
+                p = total; total += 1
+            if res != "id%d" % p:
+                return ("operation %d %s answered %s, expected page %d (free list %s)" % (k, op, res, p, free[:6]), k)
+            if p in used:
+                return ("operation %d handed out page %d which is in use" % (k, p), k)
+            used.add(p)
+        elif res != "ok":
+            return ("operation %d %s answered %s" % (k, op, res), k)
+        elif f[0] == "B":
+            free.append(int(f[1])); used.discard(int(f[1]))
+        elif f[0] == "C":
+            for x in f[1].split("+"):
+                free.append(int(x)); used.discard(int(x))
+        want = "%d;%s;%s;%s]" % (total, free[0] if free else "-", free[-1] if free else "-", ">".join(map(str, free)))
+        if st != want:
+            return ("after operation %d %s the allocator state is [%s, expected [%s" % (k, op, st[:120], want[:120]), k)
+    return None
+
+
+def gen_sql_reuse(rng, tier):
+    """SQL level: pages released by VACUUM after DROP TABLE / DELETE are reused by new tables and VACUUM runs again; a page that
+    ends up with two owners (a tree and the free list) shows as a failing or wrong read"""
+    from props.c13 import gen_drop_reuse
+    from lib import sqlgen as G
+    return [G.tag_key_reuse(gen_drop_reuse(rng)) for _ in range(8 if tier == "quick" else 80)]
+
+
+def oracle_sql(case, il):
+    """independent of the model: no statement of a drop / vacuum / reuse history fails"""
+    for i, s in enumerate(il.split(" | ")):
+        if s.startswith("err:") or s == "hang":
+            return ("action %d failed: %s" % (i, s[:160]), i)
+    return None
+
+
 class C11(Spec):
     id = "C11"
     design_ref = "7 (C11)"
-    model_targets = ["theories/Model/BtreeRun.vo", "theories/Proofs/PagesProofs.vo"]
+    model_targets = ["theories/Model/BtreeRun.vo", "theories/Proofs/PagesProofs.vo", "theories/Spec/RefDBRun.vo", "theories/Model/FreeListRun.vo", "theories/Proofs/FreeListProofs.vo"]
     prop_vo = "theories/Props/C11.vo"
     prop_module = "Props.C11"
-    theorems = ["C11_checker_sound"]
+    theorems = ["C11_checker_sound", "C11_free_list", "C11_free_pages_reused", "C11_single_link_release_refuted"]
     rule = ("the trees of C10 (four key types, all page / minimum-keys / siblings settings, insert / upsert / update / remove in all "
             "orders, delete-all-then-reinsert, payloads with overflow chains in the recorded class) plus reuse cases: 150-900 keys "
             "inserted, all removed, the same keys inserted again.  Each dump lists the tree nodes reachable from the root, the "
             "overflow chain of every cell and the free list as linked from the header.  Oracle independent of the model: every page "
             "1..total-1 has exactly one owner, chains are owned by exactly one leaf cell, the free list matches its recorded head and "
             "tail, removing everything returns pages to the free list and rebuilding does not grow the file.  Every dump also goes "
-            "through the ownership checker verified in Coq (check_pages).  non-trivial = at least 30 keys")
+            "through the ownership checker verified in Coq (check_pages).  allocator: 10-80 operations on the real pager - overflow and "
+            "B+tree page allocation, chains of 1-5 links (also out of page order), release of B+tree pages and of whole chains - against "
+            "the allocator model and a python queue (release appends, allocation pops the head before the file grows), the list linked "
+            "from the recorded head, head, tail and page count compared after every operation; plus the single-link release hazard of "
+            "C11_single_link_release_refuted replayed on the pager.  sql-reuse: SQL histories in which a multi-page table is dropped "
+            "or emptied as the last commit before VACUUM, new tables reuse the released pages and VACUUM runs again, with full reads in "
+            "between and after a reopen, against RefDB (a page with two owners shows as a failing or wrong read).  non-trivial = at least 30 keys")
     trusted_extra = ["the dump is produced by the facade: tree pages by following child pointers from the root, chains and the free list "
                      "by following next pointers; pages owned by other trees do not exist in these single-tree files",
-                     "SQL-level histories (DROP TABLE, VACUUM, reopen) are observed for ownership only through C09/C13 answers and file "
-                     "sizes, not through page dumps"]
+                     "SQL-level histories (DROP TABLE, VACUUM, reopen) are observed for ownership only through answers (sql-reuse stream, "
+                     "C09, C13) and file sizes, not through page dumps"]
     streams = [Stream("trees", "tree", ["Base.Bytes", "Model.Btree", "Model.BtreeRun"], "run_tree_case", gen_cases,
                       oracle=oracle, canon_case=c10.canon_case, rust_shards=16, shard=10, post=post, post_runner="check_pages_case",
-                      reference=True, nontrivial=lambda c, il: len(c.meta["keys"]) >= 30)]
+                      reference=True, nontrivial=lambda c, il: len(c.meta["keys"]) >= 30),
+               Stream("allocator", "fl", ["Base.Bytes", "Model.FreeList", "Model.FreeListRun"], "run_fl_case", gen_alloc,
+                      oracle=oracle_alloc, nontrivial=lambda c, il: "C:" in c.rust),
+               Stream("sql-reuse", "sql", ["Base.Bytes", "Model.Values", "Spec.RefDB", "Spec.RefDBRun"], "run_sql_case", gen_sql_reuse,
+                      oracle=oracle_sql, canon=sql_canon, rust_shards=8, shard=2, reference=True, nontrivial=lambda c, il: True)]
 
     def known_class(self, k, case):
         return k.get("class") in case.meta.get("classes", [])
